@@ -22,6 +22,7 @@ func init() {
 		rules.IngressPolicyIntersection(p, r, "C10-policy")
 		rules.IngressNamespaceScoping(p, r, "C10-ns")
 		rules.QueryPathWrites(p, r, "C10-pure")
+		rules.LayerOrder(p, r)
 		// the controller is an UNLABELED pod: what the policies allow from it is decided by the selector library, which
 		// knows that NotIn / DoesNotExist requirements match a pod without labels
 		rules.LabelMatchingByLibrary(p, r, "C10-match")
